@@ -194,6 +194,18 @@ def discharge(eng, o, usize_bits=64):
         if lin.inconsistent(L):
             o.status, o.why = True, "site unreachable: dominating conditions are infeasible"
             return True
+        # INV-PAIRED (exact form): |vector| == |set| when the single push runs exactly on the iterations whose insertion
+        # succeeded - discharges assertions such as debug_assert_eq!(values.len(), keys.len())
+        eqp = _inv_paired(eng, facts, [], exact=True)
+        if eqp:
+            L5 = make_ctx(eng, facts, usize_bits)
+            for (va, ka) in eqp:
+                L5.eqs.append(L5.lin(va).add(L5.lin(ka), -1))
+            if lin.inconsistent(L5):
+                o.status = True
+                o.why = ("INV-PAIRED (exact): the vector is pushed to exactly on the iterations whose set insertion succeeded "
+                         "(both empty before the loop), so the two lengths are equal and the failing branch is infeasible")
+                return True
         o.status, o.why = False, "an explicit panic is reachable under input-dependent conditions: %s" % sorted(Q.show_fact(f, 2)[:80] for f in facts)[:4]
         return False
     if kind == "range":
@@ -289,6 +301,20 @@ def discharge(eng, o, usize_bits=64):
     bad = [i for i, gl in enumerate(goals) if not lin.entails(L, gl)]
     if not bad:
         o.status, o.why = True, "entailed by %d dominating facts (Fourier-Motzkin)" % len(facts)
+        return True
+    # INV-ALLOC: a Vec<T> / slice of n elements occupies n * size_of::<T>() <= isize::MAX bytes (allocation invariant of
+    # the language), so n <= isize::MAX / size_of::<T>() for every measured length whose element type is known
+    added = 0
+    for gl in goals:
+        for a in list(gl.t):
+            if is_t(a) and a.op == "len" and a.id in eng.len_elem:
+                ty, crate = eng.len_elem[a.id]
+                sz = eng.size_of(ty, crate)
+                if sz:
+                    L.side.append(lin.atom(a).scale(sz).add(lin.Lin(2 ** (usize_bits - 1) - 1), -1))
+                    added += 1
+    if added and all(lin.entails(L, gl) for gl in goals):
+        o.status, o.why = True, "INV-ALLOC: the measured Vec / slice occupies len * size_of(element) <= isize::MAX bytes; then entailed"
         return True
     # INV-UNIFORM
     if kind == "lt" and _inv_uniform(eng, o, g[1], g[2]):
@@ -459,10 +485,13 @@ def _inv_uniform(eng, o, idx, ln):
     for t, rel, v in fs:
         if t.op == "eq" and rel == "eq" and v == 1:
             for x, y in ((t.args[0], t.args[1]), (t.args[1], t.args[0])):
-                if x.op == "enum" and len(x.args[1]) == 1 and x.args[1][0][2] and x.args[1][0][2][0].op == "len" and \
-                        x.args[1][0][2][0].args[0].op == "field" and x.args[1][0][2][0].args[0].args[1] == k and \
-                        _same_elem(x.args[1][0][2][0].args[0].args[0], el) and y.op == "phi":
-                    if _set_once(eng, y, fkey):
+                lx = x.args[1][0][2][0] if x.op == "enum" and len(x.args[1]) == 1 and x.args[1][0][2] else x
+                sy = y
+                if x.op != "enum" and y.op == "payload" and y.args[1:] == (1, 0):
+                    sy = y.args[0]          # len == *cell.get_or_insert(len): compared with the payload of the set-once cell
+                if lx.op == "len" and lx.args[0].op == "field" and lx.args[0].args[1] == k and \
+                        _same_elem(lx.args[0].args[0], el) and sy.op == "phi" and (x.op == "enum") == (sy is y):
+                    if _set_once(eng, sy, fkey):
                         o.status = True
                         o.why = ("INV-UNIFORM: every element stored into the indexed collection passed `y.len() == first y.len()` at its "
                                  "single write site (%s), and the reference length is assigned only while unset" % p["at"])
@@ -484,8 +513,9 @@ def _set_once(eng, sl, fkey):
     which `H is None` holds, and H = loop-head phi{ None (entry), sl (back edge) }.  Then sl equals Some(len of the
     first element's y) in every iteration, so every stored element has that y-length."""
     inc = PHI.get(sl.args[0]) or {}
+    goi = isinstance(sl.args[0], tuple) and sl.args[0] and sl.args[0][0] == "goi"      # Option::get_or_insert: sets only while None
     site = Q.phi_site(eng, sl.args[0])
-    if site is None or len(inc) != 2:
+    if (site is None and not goi) or len(inc) != 2:
         return False
     heads = [(p, v) for p, v in inc.items() if v.op == "phi"]
     somes = [(p, v) for p, v in inc.items() if v.op == "enum" and len(v.args[1]) == 1 and v.args[1][0][1] == "Some"]
@@ -504,12 +534,14 @@ def _set_once(eng, sl, fkey):
     if len(nones) != 1 or len(backs) < 1 or len(nones) + len(backs) != len(vals):
         return False
     # the Some value is assigned only where H is None
+    if goi:
+        return True
     pred = somes[0][0]
     fs = Q.closure(eng, eng.block_facts.get((fkey, pred), frozenset()))
     return any(t.op == "discr" and t.args[0] is H and rel == "eq" and v == 0 for t, rel, v in fs)
 
 
-def _inv_paired(eng, facts, terms):
+def _inv_paired(eng, facts, terms, exact=False):
     """find (len(V), len(K)) pairs that are equal by construction: V a Vec and K a set, both empty before one loop,
     K mutated only by one `insert`, V only by one `push` that is executed on exactly the paths where that insert
     returned true.  Returns the list of provable equalities among lengths mentioned in terms / facts."""
@@ -525,12 +557,12 @@ def _inv_paired(eng, facts, terms):
             if a is b or (a.id, b.id) in seen:
                 continue
             seen.add((a.id, b.id))
-            if _paired(eng, a.args[0], b.args[0]):
+            if _paired(eng, a.args[0], b.args[0], exact):
                 out.append((a, b))
     return out
 
 
-def _paired(eng, V, K):
+def _paired(eng, V, K, exact=False):
     sv, sk = Q.phi_site(eng, V.args[0]), Q.phi_site(eng, K.args[0])
     if sv is None or sk is None or sv != sk:
         return False
@@ -596,6 +628,16 @@ def _paired(eng, V, K):
     reach = cfg.reachable_from(true_succ, avoid=tuple(e["block"] for e in pushes))
     if head in reach:
         return False
+    if exact:
+        # |V| == |K| needs the converse too: the (single) push runs only after a successful insertion of the same
+        # iteration, and at most once per iteration (not inside a nested loop)
+        if len(pushes) != 1 or sw is None:
+            return False
+        pb = pushes[0]["block"]
+        if not cfg.edge_dominates(sw[0], true_succ, pb):
+            return False
+        if any(pb in cfg.reachable_from(s_, avoid=(head,)) for s_ in cfg.succ[pb]):
+            return False
     return True
 
 
